@@ -261,11 +261,110 @@ theorem expectedRates_stable {file : List Cat} {af0 : Bool} {nBins nMag : Nat} (
   rw [List.getLast?_append, List.getLast?_append]
   simp
 
+
+/-! ### round 2: what a catalog brings along is never consulted
+
+`CatalogForecast` identifies a catalog by its position in the pass only.  The catalog id (possibly `None`, possibly
+equal for all catalogs, possibly the same Python object repeated), the filter statements a catalog was constructed
+with (`CSEPCatalog(filters=…)` only stores them) and the region it is already bound to play no role:
+relabelling them arbitrarily changes no event, no count, no rate and no `n_cat`; the catalogs handed out carry the
+relabelled payload.  In particular a streamed and cached forecast whose catalogs all have `catalog_id = None` keeps
+every catalog (`ids_none_all_survive`), catalogs that already carry the forecast's statements are still filtered on
+every pass (`carried_filters_still_applied`), and expected rates are counted on the forecast's grid, not on the grid
+the catalogs were bound to (`expectedRates_on_forecast_grid`). -/
+
+/-- replace id, bound region and carried statements of a catalog; events untouched -/
+def repay (f : Option Nat → Option Nat) (g : Nat → Nat) (k : Bool → Bool) (c : Cat) : Cat :=
+  { c with id := f c.id, grid := g c.grid, carries := k c.carries }
+
+def repayOut (f : Option Nat → Option Nat) (g : Nat → Nat) (k : Bool → Bool) : Out → Out
+  | .cats l => .cats (l.map (repay f g k))
+  | o => o
+
+theorem filtered_repay (f : Option Nat → Option Nat) (g : Nat → Nat) (k : Bool → Bool) (file : List Cat)
+    (af : Bool) : filtered (file.map (repay f g k)) af = (filtered file af).map (repay f g k) := by
+  simp only [filtered, List.map_map]
+  apply List.map_congr_left
+  intro c _
+  cases af <;> simp [applyOnce, filt, repay]
+
+theorem totals_repay (f : Option Nat → Option Nat) (g : Nat → Nat) (k : Bool → Bool) (nBins : Nat)
+    (l : List Cat) : totals nBins (l.map (repay f g k)) = totals nBins l := by
+  simp [totals, List.map_map, Function.comp_def, repay]
+
+theorem spec_repay (f : Option Nat → Option Nat) (g : Nat → Nat) (k : Bool → Bool) (l : List Cat)
+    (nBins nMag : Nat) (ops : List Op) :
+    spec (l.map (repay f g k)) nBins nMag ops =
+      (spec l nBins nMag ops).map (fun o => (repayOut f g k o.1, o.2)) := by
+  simp only [spec, List.map_map]
+  apply List.map_congr_left
+  intro op _
+  cases op <;>
+    simp [specOut, repayOut, totals_repay, List.map_map, Function.comp_def, repay]
+
+/-- **ids, carried filter statements and bound regions are irrelevant**: two forecasts (any source, any state
+    between operations) whose catalogs differ only in that payload give, for every history, the same event counts,
+    rates and `n_cat`, and yield the same catalogs up to the payload -/
+theorem payload_irrelevant {file : List Cat} {af0 : Bool} {nBins nMag : Nat} (hne : file ≠ [])
+    (f : Option Nat → Option Nat) (g : Nat → Nat) (k : Bool → Bool) {st st' : St}
+    (hinv : Inv file af0 nBins nMag st) (hinv' : Inv (file.map (repay f g k)) af0 nBins nMag st')
+    (ops : List Op) :
+    run st' ops = (run st ops).map (fun o => (repayOut f g k o.1, o.2)) := by
+  have hne' : file.map (repay f g k) ≠ [] := by simpa using hne
+  rw [refines_spec hne' ops st' hinv', refines_spec hne ops st hinv, filtered_repay, spec_repay]
+
+/-- streamed and cached (or re-read), catalogs without distinct ids: **every catalog survives every pass** and
+    `n_cat` is the number of catalogs — for every history; no hypothesis on the ids -/
+theorem ids_none_all_survive (file : List Cat) (hne : file ≠ []) (store af : Bool) (nBins nMag : Nat)
+    (ops : List Op) :
+    ∀ o ∈ run (initStream (file.map (repay (fun _ => none) id id)) store af nBins nMag) ops,
+      o.2 = some file.length ∧ (∀ l, o.1 = Out.cats l → l.length = file.length) := by
+  have hne' : file.map (repay (fun _ => none) id id) ≠ [] := by simpa using hne
+  rw [refines_spec_stream _ hne']
+  intro o ho
+  simp only [spec, List.mem_map] at ho
+  obtain ⟨op, _, rfl⟩ := ho
+  refine ⟨by simp [filtered_length], ?_⟩
+  intro l hl
+  cases op <;> simp [specOut] at hl <;> (subst hl; simp [filtered_length])
+
+/-- catalogs constructed with the forecast's filter statements (`carries = true`) are still filtered: every pass
+    yields the filtered events -/
+theorem carried_filters_still_applied (cats : List Cat) (hne : cats ≠ []) (nBins nMag : Nat) (ops : List Op) :
+    ∀ o ∈ run (initList (cats.map (repay id id (fun _ => true))) none true nBins nMag) ops,
+      ∀ l, o.1 = Out.cats l → ∀ c ∈ l, ∀ e ∈ c.events, e.keep = true := by
+  have hne' : cats.map (repay id id (fun _ => true)) ≠ [] := by simpa using hne
+  rw [refines_spec_list _ hne' none (Or.inl rfl)]
+  intro o ho
+  simp only [spec, List.mem_map] at ho
+  obtain ⟨op, _, rfl⟩ := ho
+  intro l hl c hc e he
+  have hl' : l = filtered (cats.map (repay id id (fun _ => true))) true := by
+    cases op <;> simp [specOut] at hl <;> exact hl.symm
+  subst hl'
+  simp only [filtered, List.mem_map] at hc
+  obtain ⟨c0, _, rfl⟩ := hc
+  simp [applyOnce, filt] at he
+  exact he.2
+
+/-- expected rates are counted on the FORECAST's grid (`Ev.cell`), whatever region the catalogs were bound to
+    (`Cat.grid`, `Ev.own`) -/
+theorem expectedRates_on_forecast_grid (cats : List Cat) (hne : cats ≠ []) (g : Nat → Nat) (af : Bool)
+    (nBins nMag : Nat) :
+    run (initList (cats.map (repay id g id)) none af nBins nMag) [Op.getExpectedRates] =
+      [(Out.rates ((List.range nBins).map (fun j => ((filtered cats af).map (fun c => cnt c j)).sum))
+          cats.length, some cats.length)] := by
+  have hne' : cats.map (repay id g id) ≠ [] := by simpa using hne
+  rw [refines_spec_list _ hne' none (Or.inl rfl), filtered_repay]
+  simp only [spec, specOut, List.map_cons, List.map_nil, totals_repay, List.length_map, filtered_length]
+  simp [totals, cnt]
+
 /-! ### non-vacuity: concrete histories evaluated by the kernel -/
 
 def ev (k : Bool) (c : Nat) : Ev := { keep := k, cell := c }
 def demo : List Cat :=
-  [{ id := 0, events := [ev true 0, ev false 1] }, { id := 1, events := [] }, { id := 2, events := [ev true 3, ev true 3] }]
+  [{ id := some 0, events := [ev true 0, ev false 1] }, { id := some 1, events := [] },
+   { id := some 2, events := [ev true 3, ev true 3] }]
 
 -- streamed and cached, filters on: pass, counts, rates, pass, rates
 example : run (initStream demo true true 4 2)
@@ -276,6 +375,22 @@ example : (run (initStream demo false true 4 2) [.getExpectedRates]).map (·.1) 
   decide +kernel
 -- a wrong n_cat for an in-memory list is outside the hypotheses: the assertion of `__next__` fails
 example : run (initList demo (some 2) false 4 2) [.fullPass] = [(.error, some 2)] := by decide +kernel
+
+
+-- round 2: all ids None, streamed + cached: nothing collapses; catalogs bound to another grid (own bins differ)
+-- and carrying the forecast's statements: still filtered, still counted on the forecast's grid
+def demoNone : List Cat :=
+  [{ id := none, events := [{ keep := true, cell := 0, own := 3 }, { keep := false, cell := 1, own := 2 }], grid := 5,
+     carries := true },
+   { id := none, events := [], grid := 5, carries := true },
+   { id := none, events := [{ keep := true, cell := 3, own := 0 }, { keep := true, cell := 3, own := 1 }], grid := 5,
+     carries := true }]
+example : run (initStream demoNone true true 4 2) [.fullPass, .getExpectedRates, .fullPass, .getEventCounts]
+    = spec (filtered demoNone true) 4 2 [.fullPass, .getExpectedRates, .fullPass, .getEventCounts] := by
+  decide +kernel
+example : (run (initStream demoNone true true 4 2) [.fullPass, .getExpectedRates]).map (·.1)
+    = [.cats (filtered demoNone true), .rates [1, 0, 0, 2] 3] := by decide +kernel
+example : demoNone = demoNone.map (repay (fun _ => none) id id) := by decide +kernel
 
 /-! ### finding (current code): an aborted pass is not restarted
 
